@@ -244,7 +244,8 @@ def build(op, seed, variant=0):
     if op == "func_basis":
         return C(op, teneva.func_basis, [rng.uniform(-1, 1, size=(6, 2)) if v % 2 else rng.uniform(-1, 1, size=6)], dict(m=1 + v % 5))
     if op == "func_diff_matrix":
-        return C(op, teneva.func_diff_matrix, [-1. - v % 2, 2., 3 + v % 5], dict(m=1 + v % 3, kind=['cheb', 'sin'][(v // 3) % 2]))
+        # the grid (a, b, n) comes from the builder seed, the derivative order and the kind from the variant
+        return C(op, teneva.func_diff_matrix, [-1. - int(rng.integers(0, 3)) * 0.5, 2., 3 + int(rng.integers(0, 6))], dict(m=1 + v % 4, kind=['cheb', 'sin'][(v // 4) % 2]))
     if op == "func_diff_matrix_apply":
         A = mk_tt(rng, [4, 4], 2)
         D = teneva.func_diff_matrix(0., 1., 4, kind='sin')
